@@ -425,6 +425,14 @@ def _check_spec(acc, net, A, directed, W=None):
     suffix = "" if W is None else "[attr]"
     arg = () if W is None else ("w",)
     conn = (G.is_strongly_connected(A) if directed else G.is_connected(A))
+    if directed and G.is_connected(G.und(A)):
+        # use_directed=False: every link is followed in both directions (a
+        # reciprocated pair counts twice): PageRank of M + M^T
+        M = np.array(A if W is None else W, dtype=float)
+        Ms = (M + M.T).tolist()
+        acc.check("pagerank[use_directed=False]" + suffix,
+                  lambda: net.pagerank(*arg, use_directed=False),
+                  G.pagerank(Ms, Ms), tol=SPEC, sig=False)
     if not conn:
         acc.ex("spectral centralities: graph not (strongly) connected", 2)
         return
